@@ -34,7 +34,8 @@ def cell? (dt : DType) (e : Sexp) : Option Cell :=
   match dt with
   | .int _ _ => e.toInt?.map .i
   | .flt _ => e.toNat?.map .f
-  | .str _ => e.toNats?.map .s
+  -- numpy never stores trailing NULs: `np.array(['a\0'])[0] == 'a'`
+  | .str _ => e.toNats?.map fun cs => .s (stripZ cs)
 
 def row? (dts : List DType) (e : Sexp) : Option (List Cell) := do
   let xs ← e.toList?
